@@ -502,13 +502,10 @@ def _bound_line(rng, v, cmp, terms, const, style):
 
 
 def _same_sides(lines):
-    """two lines with textually identical sides and different comparators (the situation of #opposed-pair)"""
-    seen = {}
-    for l in lines:
-        a, c, b = split_line(l)
-        if seen.setdefault((a, b), c) != c or seen.get((b, a), FLIP[c]) != FLIP[c]:
-            return True
-    return False
+    """two lines with textually identical sides (the situation of #opposed-pair; kept out of the new families)"""
+    parts = [split_line(l) for l in lines]
+    return any(((a1, b1) == (a2, b2) and c1 != c2) or (a1, b1) == (b2, a2)
+               for i, (a1, c1, b1) in enumerate(parts) for a2, c2, b2 in parts[i + 1:])
 
 
 def _constant_line(line):
@@ -530,8 +527,10 @@ def gen_boundary(family, seed):
         c1, c2 = rng.choice(OPPOSED) if rng.random() < .75 else (rng.choice(ALLCMP), rng.choice(ALLCMP))
         delta = 0 if rng.random() < .7 else rng.choice([1, -1, 2, -3])
         lines = [_bound_line(rng, v, c1, terms, const, style), _bound_line(rng, v, c2, terms, const + delta, style)]
+        kind = _pair_kind(c1, c2, delta != 0)
         if rng.random() < .25:                            # a third relation on the same boundary
             lines.append(_bound_line(rng, v, rng.choice(ALLCMP), terms, const, style))
+            kind = 'three-on-boundary' + ('-apart' if delta else '')
         for _ in range(rng.choice([0, 0, 1, 2])):
             lines.append(_linear_line(rng, names, 'int'))
         rng.shuffle(lines)
@@ -543,7 +542,7 @@ def gen_boundary(family, seed):
     if rng.random() < .2:
         kw['target'] = rng.sample(names, len(names))
     return {'family': family, 'rseed': seed, 'style': style, 'text': '\n'.join(lines), 'kwds': kw,
-            'pair': _pair_kind(c1, c2, delta != 0)}
+            'pair': kind}
 
 
 def gen_shared_sign(family, seed):
@@ -630,6 +629,13 @@ def check(spec, res, stats):
                     raise TypeError('simplify(all=False) returned %r' % (out,))
                 if spec['kwds'].get('all') is False and len(cases) > 1:
                     cases = None
+            elif fam == 'merge':
+                out = ms.merge(*spec['bounds'], inclusive=False)
+                in_lines = list(spec['bounds'])
+                if out is not None and not (isinstance(out, tuple) and all(isinstance(o, str) for o in out)):
+                    raise TypeError('merge returned %r' % (out,))
+                cases, exact_only = ([] if out is None else [[o for o in out]]), True
+                key = 'C12/bounded/merge/conjunction-of-bounds'
             elif fam == 'solve':
                 out = ms.solve(spec['text'], **dict(spec['kwds']))
                 in_lines = _lines(spec['text'])
@@ -685,7 +691,8 @@ def check(spec, res, stats):
         return
     stats['programs'] = stats.get('programs', 0) + 1
     shown = {'in': in_lines, 'out': cases, 'kwds': spec.get('kwds')}
-    res.case('%s|%s' % (key, spec.get('text') or jsonable(spec)), cases != [in_lines], shown)
+    res.case('%s|%s' % (key, spec.get('text') or jsonable(spec)),
+             sorted(cases[0]) != sorted(in_lines) if fam == 'merge' and cases else cases != [in_lines], shown)
     if bad is None:
         return
     mode, pt, confirmed = bad
@@ -695,8 +702,34 @@ def check(spec, res, stats):
     cond = re.compile(r'^%s\s*(!=|<|>)\s*0$' % re.escape(spec.get('factor', '?')))
     dropped = fam.startswith('simplify') and any(len([l for l in c if not cond.match(l)]) < len(in_lines) for c in cases)
     tag = '#opposed-pair' if (fam == 'simplify-opposed' and not spec.get('scaled')) else '#line-dropped' if dropped else '#' + mode
+    if fam in NEW_FAMILIES:                                # sub-case = generated situation + which side has the point
+        side = 'extra-points' if not all(line_status(l, pt, 0)[0] for l in in_lines) else 'lost-points'
+        if fam == 'merge':
+            sit = 'none-returned' if out is None else _merge_situation(in_lines)
+        else:                                              # (the generators admit no #opposed-pair / #line-dropped input)
+            sit = spec['pair']
+        tag = '#%s-%s' % (sit, side)
     res.violation(key + tag, 'input %r and result %r disagree (%s) at %s' % (
         in_lines, cases, mode, {k: str(v) for k, v in pt.items()}), jsonable(spec))
+
+
+def _merge_situation(bounds):
+    """which comparators sit on one and the same (side, right-hand side) text"""
+    groups = {}
+    for b in bounds:
+        l, c, r = split_line(b)
+        groups.setdefault((l, r), set()).add(c)
+    g = max(groups.values(), key=len)
+    if len(g) < 2:
+        return 'distinct-bounds'
+    pairs = [(a, b) for a in g for b in g if (a, b) in OPPOSED]
+    if not pairs:
+        return 'same-text-mixed'
+    n = max((a in STRICT) + (b in STRICT) for a, b in pairs) if len(g) == 2 else None
+    return {0: 'nonstrict-nonstrict', 1: 'strict-nonstrict', 2: 'strict-strict', None: 'three-or-more'}[n]
+
+
+NEW_FAMILIES = ('simplify-boundary', 'simplify-shared-sign', 'merge')
 
 
 def _alarm(*a):
@@ -715,9 +748,13 @@ def _work(spec):
 
 
 COUNTS = {'quick': {'simplify-linear': 24, 'simplify-opposed': 8, 'simplify-rational': 12, 'simplify-product': 4,
-                    'solve': 12, 'linear_symbolic': 24, 'symbolic_bounds': 24},
+                    'solve': 12, 'linear_symbolic': 24, 'symbolic_bounds': 24,
+                    'simplify-boundary': 48, 'simplify-shared-sign': 24, 'merge': 147 + 80},
           'thorough': {'simplify-linear': 680, 'simplify-opposed': 70, 'simplify-rational': 300,
-                       'simplify-product': 50, 'solve': 400, 'linear_symbolic': 400, 'symbolic_bounds': 400}}
+                       'simplify-product': 50, 'solve': 400, 'linear_symbolic': 400, 'symbolic_bounds': 400,
+                       'simplify-boundary': 400, 'simplify-shared-sign': 200, 'merge': 147 + 1200}}
+GENS = {'linear_symbolic': gen_matrix, 'symbolic_bounds': gen_matrix, 'simplify-boundary': gen_boundary,
+        'simplify-shared-sign': gen_shared_sign}
 
 
 def run(tier='quick', seed=0):
@@ -739,12 +776,34 @@ def run(tier='quick', seed=0):
              'variable factor are counted outside the class.  Sub-cases: #opposed-pair (two lines with identical '
              'sides and opposite comparators), #line-dropped (a returned case has fewer relations than the input '
              'has lines), else #exact / #band.  A distinct '
-             'case is a distinct program text; non-trivial = the returned text differs from the input.',
+             'case is a distinct program text; non-trivial = the returned text differs from the input.  '
+             'simplify-boundary: two (25%: three) differently scaled / shifted / rearranged / side-swapped texts of '
+             'v c1 r, v c2 r+delta (r: integer constant or integer combination of the other variables; delta = 0 in '
+             '70%; (c1,c2) in 75% an opposed pair strict/strict, strict/non-strict, non-strict/non-strict, else any '
+             'two comparators) plus 0-2 random linear lines, options all/cycle/target; the lines meet or contradict '
+             'only after isolation.  simplify-shared-sign: 2-3 single-factor rational relations (incl. the factor as '
+             'divisor on the right-hand side) over the SAME sign variable, optionally a linear line and a plain bound '
+             'on the sign variable, all=True.  Both generators reject systems with two lines of textually identical '
+             'sides (that is #opposed-pair) and lines whose variables cancel (that is #line-dropped); their '
+             'violations carry #<situation>-extra-points (the witness fails the input and satisfies the result) or '
+             '#<situation>-lost-points, situation = strict-strict / strict-nonstrict / nonstrict-nonstrict / '
+             'same-direction / with-equality / with-unequal [-apart when delta != 0] / three-on-boundary / '
+             'shared-sign-variable.  merge: symbolic.merge(*bounds, inclusive=False) (the conjunctive mode simplify '
+             'uses to combine lines and cases; inclusive=True is documented to cancel B >= 0, B <= 0 and is not a '
+             'conjunction) against its documented meaning: None only if no point satisfies all bounds, otherwise the '
+             'returned bounds hold exactly where all given bounds hold (so an unsatisfiable input needs None or an '
+             'unsatisfiable result); all 7x7 comparator pairs on one side with equal / increasing / decreasing '
+             'right-hand sides (147, complete), then seeded sequences of 2-5 bounds over 1-2 side texts and 1-2 '
+             'right-hand sides; sub-case = comparators that sit on one (side, rhs) text, or none-returned.',
         bound='%s tier: %s programs per family, seed-derived' % (tier, COUNTS[tier]))
     specs = []
-    for fi, (fam, n) in enumerate(sorted(COUNTS[tier].items())):
-        gen = gen_matrix if fam in ('linear_symbolic', 'symbolic_bounds') else gen_program
-        specs += [gen(fam, (seed * 1000 + fi) * 100003 + i) for i in range(n)]
+    order = sorted(f for f in COUNTS[tier] if f not in NEW_FAMILIES) + list(NEW_FAMILIES)   # earlier families keep their seeds
+    for fi, fam in enumerate(order):
+        n, gen = COUNTS[tier][fam], GENS.get(fam, gen_program)
+        if fam == 'merge':
+            specs += [gen_merge(fam, (seed * 1000 + fi) * 100003 + i, i) for i in range(n)]
+        else:
+            specs += [gen(fam, (seed * 1000 + fi) * 100003 + i) for i in range(n)]
     random.Random(seed).shuffle(specs)
     tot = {}
     for part, stats in pmap(_work, specs):
